@@ -153,31 +153,46 @@ def run_expr(k, s, vals, variant):
     return frame_ok(pre, post, written=variant)
 
 
-def run_object(k, tree, vals):
-    """one-node trees: the corresponding Operator object applied directly"""
+def run_object(k, tree, vals, inplace=False):
+    """one-node trees: the corresponding Operator object applied directly; inplace = the output name is omitted, which
+    Track.operate documents as "the first input feature" (the operator then reads and writes the same column)"""
     from tracklib.core.operators import Operator
     t = env_track(k)
     pre = snap(t)
     undef = has_undef(vals)
+    dest = "c"
     try:
         if tree[0] == "B":
             l, r = tree[2], tree[3]
             ll, rl = l[1] in LITS, r[1] in LITS
-            if not ll and not rl:
-                t.operate(getattr(Operator, BIN_OBJ[tree[1]]), l[1], r[1], "c")
-            elif not ll and rl:
-                t.operate(getattr(Operator, SC_OBJ[tree[1]]), l[1], float(r[1]), "c")
-            elif ll and not rl:
-                t.operate(getattr(Operator, SCR_OBJ[tree[1]]), r[1], float(l[1]), "c")
-            else:
+            if ll and rl:
                 return None
+            if inplace:
+                dest = r[1] if ll else l[1]
+                if dest not in ("a", "b"):
+                    return None
+            out = () if inplace else ("c",)
+            if not ll and not rl:
+                t.operate(getattr(Operator, BIN_OBJ[tree[1]]), l[1], r[1], *out)
+            elif not ll and rl:
+                t.operate(getattr(Operator, SC_OBJ[tree[1]]), l[1], float(r[1]), *out)
+            else:
+                t.operate(getattr(Operator, SCR_OBJ[tree[1]]), r[1], float(l[1]), *out)
             got = None
         else:
             f = tree[1]
             if f in VOID_FUN:
-                t.operate(getattr(Operator, FUN_OBJ[f]), tree[2][1], "c")
+                if inplace:
+                    dest = tree[2][1]
+                    if dest not in ("a", "b"):
+                        return None
+                    t.operate(getattr(Operator, FUN_OBJ[f]), dest)
+                else:
+                    t.operate(getattr(Operator, FUN_OBJ[f]), tree[2][1], "c")
                 got = None
             else:
+                if inplace:
+                    return None
                 got = t.operate(getattr(Operator, FUN_OBJ[f]), tree[2][1])
     except (Exception, SystemExit) as ex:
         return None if undef else "operator object raised %r" % (ex,)
@@ -188,9 +203,9 @@ def run_object(k, tree, vals):
         if not vec_ok([got] * len(vals), vals):
             return "operator object returned %r, specification %s" % (got, vals[0])
         return frame_ok(pre, post)
-    if "c" not in post["cols"] or not vec_ok(post["cols"]["c"], vals):
-        return "operator object wrote %s, specification %s" % (post["cols"].get("c"), vals)
-    return frame_ok(pre, post, written="c")
+    if dest not in post["cols"] or not vec_ok(post["cols"][dest], vals):
+        return "operator object wrote %s into %s, specification %s" % (post["cols"].get(dest), dest, vals)
+    return frame_ok(pre, post, written=dest)
 
 
 VARIANTS = ["c", "a", "x", "bracket", "z", "b"]
@@ -229,10 +244,12 @@ def replay(cases):
                 if bad:
                     viol.append(("expr/reflexive/" + ",".join(kinds), "%r on environment %d: %s" % (c["rs"], k, bad), {"case": c, "env": k, "variant": "reflexive"}))
             if one_node:
-                bad = run_object(k, tree, vals)
-                if bad:
-                    viol.append(("object/" + ",".join(kinds), "operator object for %s on environment %d: %s" % (c["s"], k, bad),
-                                 {"case": c, "env": k}))
+                for inplace in (False, True):
+                    bad = run_object(k, tree, vals, inplace)
+                    if bad:
+                        viol.append(("object%s/" % ("-in-place" if inplace else "") + ",".join(kinds),
+                                     "operator object for %s%s on environment %d: %s" % (c["s"], " (output name omitted)" if inplace else "", k, bad),
+                                     {"case": c, "env": k, "inplace": inplace}))
         if depth(tree) >= 3 and len(set(ch for ch in c["s"] if ch in "+-*/^<>")) >= 2:
             nontriv.add(c["s"])
         if len(samples) < 2 and depth(tree) >= 3:
